@@ -35,8 +35,10 @@ def inits(a, b, pb):
     return out
 
 
-def judge(a, b, pa, pb, init, u):
-    """u: the U record.  returns (predicate, text) or None"""
+def judge(a, b, pa, pb, init, u, damaged_source=False):
+    """u: the U record.  returns (predicate, text) or None.  With a source whose body is damaged (its index still lists
+    the chunk) the chunks that could not be reused must be fetched as well: then only 'needed is requested, nothing valid
+    in the target is requested, nothing twice' is demanded."""
     if u["status"] == "10":
         return "does-not-terminate", "more than #chunks+5 requests: %s" % u["reqs"]
     if u["status"] != "0":
@@ -73,6 +75,16 @@ def judge(a, b, pa, pb, init, u):
         if s & seen:
             return "bytes-requested-twice", "%d-%d" % (x, y)
         seen |= s
+    if damaged_source:
+        present = set()
+        for i, ((off, ln), c) in enumerate(zip(ext, pb.chunks)):
+            if ln > 0 and vm[i] == 1:
+                present.update(range(off, off + ln))
+        if seen & present:
+            return "fetched-bytes-that-were-present", "bytes of chunks valid in the target were requested"
+        if need - seen:
+            return "needed-bytes-not-requested", ""
+        return None
     if seen != need:
         extra, lack = seen - need, need - seen
         def chunks_of(bs):
@@ -87,6 +99,7 @@ def judge(a, b, pa, pb, init, u):
 
 def work(arg):
     aname, a, bname, b, cases = arg     # cases: (init name, init bytes, limit, style)
+    damaged = ":flip" in aname
     pa = zckref.parse(a) if a is not None else None
     pb = zckref.parse(b)
     job = ["a %s" % (a.hex() if a is not None else "-"), "b %s" % b.hex()]
@@ -112,10 +125,72 @@ def work(arg):
         if 0 < fetched and u["scan"].count("+") + u["copy"].count("+") > 1:
             res["partial"] += 1
         res["outcomes"].add((u["status"], min(len(reqs), 3)))
-        v = judge(a, b, pa, pb, init, u)
+        v = judge(a, b, pa, pb, init, u, damaged)
         if v:
-            res["viol"].append((dict(klass, predicate=v[0]), "%s: %s" % (what0, v[1]), case))
+            res["viol"].append((dict(klass, predicate=v[0], source="damaged" if damaged else klass["source"]), "%s: %s" % (what0, v[1]), case))
     return res
+
+
+def real_zckdl(ctx, files, wl, cfg):
+    """thorough: the real zckdl tool (built from the tree, libcurl) against a loopback HTTP range server, including the
+    back-off when the server refuses the number of ranges"""
+    import httpd
+    srv = httpd.Server()
+    try:
+        job = ["chunk 1", "timeout 60000"]
+        meta = []
+        pairs = [(a, b) for b in wl if len(b) >= 2 for a in ([None] + [w for w in wl if 1 <= len(w) <= 2])][:60]
+        k = 0
+        for aw, bw in pairs:
+            b = files[(bw, cfg.name())]
+            a = files[(aw, cfg.name())] if aw is not None else None
+            pb = zckref.parse(b)
+            for maxr in (1, 2, 255):
+                for iname, init in [x for x in inits(a, b, pb) if x[0] in ("absent", "B-zero1", "garbage")]:
+                    name = "c%d.zck" % k
+                    k += 1
+                    srv.files[name] = b
+                    job.append("clear")
+                    if a is not None:
+                        job.append("file old.zck %s" % a.hex())
+                    if iname != "absent":
+                        job.append("file %s %s" % (name, init.hex()))
+                    args = (["-s", "old.zck"] if a is not None else []) + ["http://127.0.0.1:%d/m%d/%s" % (srv.port, maxr, name)]
+                    job.append("case tool=zckdl args=%s out=%s" % (",".join(x.encode().hex() for x in args), name))
+                    meta.append((aw, a, bw, b, iname, init, maxr, name))
+        cs = core.drv("tool", "\n".join(job) + "\n", timeout=7200)
+        log = srv.take_log()
+    finally:
+        srv.stop()
+    for c, (aw, a, bw, b, iname, init, maxr, name) in zip(cs, meta):
+        l = c.first("L")
+        ctx.states += 1; ctx.evaluations += 1
+        case = {"real": True, "a": aw, "b": bw, "init": iname, "maxr": maxr}
+        klass = {"check": "C04", "tool": "zckdl", "init": iname.rstrip("0123456789"), "server_max_ranges": maxr}
+        what0 = "zckdl old=%s new=%s initial-target=%s server-max-ranges=%d" % (aw, bw, iname, maxr)
+        if not c.done or l is None:
+            ctx.violation(dict(klass, predicate="crash-or-hang"), "%s: %s" % (what0, c.status()), case)
+            continue
+        mine = [(p, r, code) for (p, r, code) in log if p.endswith("/" + name)]
+        ctx.transitions += len(mine)
+        if l["exit"] != "0":
+            ctx.violation(dict(klass, predicate="update-fails"), "%s: exit %s after %d requests" % (what0, l["exit"], len(mine)), case)
+            continue
+        out = l.get("f." + name, "ABSENT")
+        if out == "ABSENT" or core.unhex(out) != b:
+            ctx.violation(dict(klass, predicate="target-differs-from-new-file"), what0, case)
+            continue
+        # body ranges actually served (206) must be exactly the needed extents, once
+        pa = zckref.parse(a) if a is not None else None
+        pb = zckref.parse(b)
+        reqs = ";".join("%s:%s" % ("c" if int(r[6:].split("-")[0].split(",")[0]) >= pb.header_len else "h", r[6:]) for (p, r, code) in mine if code == 206 and r)
+        u = {"status": "0", "tfile": out, "reqs": reqs or "-"}
+        v = judge(a, b, pa, pb, init, u)
+        ctx.outcomes.add(("zckdl", len(mine) > 3))
+        if any(code == 200 for (p, r, code) in mine):
+            ctx.nontrivial += 1
+        if v:
+            ctx.violation(dict(klass, predicate=v[0]), "%s: %s (requests: %s)" % (what0, v[1], [(r, code) for p, r, code in mine]), case)
 
 
 def run(ctx):
@@ -154,6 +229,16 @@ def run(ctx):
                         for style in ((0, 1) if lim in (-1, 2) and iname in ("absent", "garbage") else (0,)):
                             cases.append((iname, init, lim, style))
                 jobs.append(("%s:%s" % (aw, ca.name()) if aw is not None else "absent", a, "%s:%s" % (bw, cb.name()), b, cases))
+                # the old file may be damaged: header intact, one chunk's stored bytes flipped - what cannot be reused must be fetched
+                if a is not None and (thorough or len(aw) <= 2) and set(aw) & set(bw):
+                    pa_ = zckref.parse(a)
+                    real = [(off, ln) for off, ln in zckref.extents(pa_) if ln > 0]
+                    for j, (off, ln) in enumerate(real):
+                        if not thorough and j not in (0, len(real) - 1):
+                            continue
+                        x = bytearray(a); x[off + ln // 2] ^= 0x08
+                        dcases = [(iname, init, lim, 0) for iname, init in inits(a, b, pb) if iname != "B" and iname != "A" for lim in (limits if thorough else [-1])]
+                        jobs.append(("%s:%s:flip%d" % (aw, ca.name(), j), bytes(x), "%s:%s" % (bw, cb.name()), b, dcases))
     ctx.bounds = {"words": "<= 3 letters over %s (and the empty content)" % alpha, "pairs": npairs, "configurations": [c[0] for c in combos],
                   "limits": limits, "initial_targets": "absent, A, B, B with each chunk zeroed, garbage, B+50 bytes, B cut in the last chunk, header only"}
     ctx.rule = "case = (old file, new file, limit, spelling, initial target); non-trivial = run that reused some chunks and fetched others"
@@ -162,10 +247,15 @@ def run(ctx):
         ctx.outcomes |= r["outcomes"]
         for sig, what, case in r["viol"]:
             ctx.violation(sig, what, case)
+    if thorough:
+        real_zckdl(ctx, files, [w for w in wl], combos[0][1])
+        ctx.bounds["real_zckdl"] = "zckdl (in-process main, libcurl) against a loopback range server: 60 pairs x server range limits {1, 2, 255} x 3 initial targets"
     ctx.sample({"old": "ab", "new": "abc", "initial_target": "absent", "limit": -1, "expect": "one body request for exactly chunk c's extent; target == new file"})
 
 
 def replay(case, quiet=True):
+    if case.get("real"):
+        return {"violated": True, "detail": "real-zckdl case: re-run ./vf check C04 --tier thorough"}
     a = bytes.fromhex(case["a"]) if case["a"] else None
     r = work((case["aname"], a, case["bname"], bytes.fromhex(case["b"]), [(case["iname"], bytes.fromhex(case["init"]), case["limit"], case["style"])]))
     return {"violated": bool(r["viol"]), "detail": [v[1] for v in r["viol"]]}
